@@ -317,6 +317,23 @@ def wing_tree_cases(chk, MX, n, cases, descr):
             continue
         a = sc._airplanes["a"]
         chk.case(dict(kind="wing-tree", n=m, sides=[sides[k] for k in sorted(sides)]), nontrivial=len(a._segments_in_wings) >= 2)
+        # the same description with the "wings" dictionary written in another order is the same aircraft: it builds, and every half-segment
+        # lies where it lay (a JSON object is unordered; fix for chains listed grandchild, parent, child)
+        keys = list(wings)
+        rng.shuffle(keys)
+        ac2 = copy.deepcopy(ac)
+        ac2["wings"] = {k_: copy.deepcopy(wings[k_]) for k_ in keys}
+        try:
+            sc2 = gen.build_scene(MX, {"scene": {"atmosphere": {"rho": 0.0023769}}}, [("a", ac2, {"velocity": 50.0}, {})])
+            a2 = sc2._airplanes["a"]
+            for nm_, s_ in a.wing_segments.items():
+                if nm_ not in a2.wing_segments or not np.allclose(np.array(a2.wing_segments[nm_].control_points), np.array(s_.control_points), rtol=1e-12, atol=1e-12) \
+                        or not np.allclose(np.array(a2.wing_segments[nm_].nodes), np.array(s_.nodes), rtol=1e-12, atol=1e-12):
+                    chk.violation("wings-order:geometry", dict(kind="wings-order", aircraft=ac, order=keys, segment=nm_))
+                    break
+            chk.count("wings-order:shuffled")
+        except Exception as e:
+            chk.violation("wings-order:rejected", dict(kind="wings-order", aircraft=ac, order=keys, error=repr(e)))
         k0 = len(descr)
         wing_group_cases(chk, a, cases, descr)
         for d in descr[k0:]:
